@@ -75,13 +75,20 @@ def _impl(c):
     finally:
         sh.amp_by_time = orig
 
+def _long_recording():
+    r = np.random.default_rng(3); n = 72000
+    env = 0.6 + 0.4 * np.sin(2 * np.pi * 0.13 * np.arange(n) / 1000.0)
+    return np.round((env * np.sin(2 * np.pi * 10 * np.arange(n) / 1000.0) + 0.3 * r.standard_normal(n)) * 200) / 200
+
 def corpus(ctx):
     s = gen.make_signal(np.random.default_rng(11), family='asym', fs=500, f0=10)
     base = dict(sig=proto.arr2hex(s['sig']), fs=500, f_range=[7.0, 13.0], fk=None, boundary=None, family='asym')
     return [dict(base, center='peak', stub=False, via='shape'), dict(base, center='trough', stub=True, via='shape'),
             dict(base, center='trough', stub=False, via='features'),
             # pre-fix F (052c5d2): int16 arithmetic wrapped volt_rise / volt_decay / volt_amp and the flank midpoints
-            dict(base, center='peak', stub=True, via='features', dtype='int16'), dict(base, center='trough', stub=True, via='shape', dtype='uint16')]
+            dict(base, center='peak', stub=True, via='features', dtype='int16'), dict(base, center='trough', stub=True, via='shape', dtype='uint16'),
+            # directed: a LONG recording (72 s at 1000 Hz, sample indices beyond 2^16; the one of C01's corpus): durations and voltages of the late cycles
+            dict(sig=proto.arr2hex(_long_recording()), fs=1000, f_range=[7.0, 13.0], fk=None, boundary=None, family='long', center='trough', stub=False, via='features')]
 
 def generate(ctx):
     rng = ctx.rng
